@@ -182,6 +182,8 @@ func c07Prop(t *testing.T, r *hx.Run, sub string) func(c c07Case) hx.Verdict {
 					return
 				}
 			}
+			closedAt := map[string]int{"out": -1, "in": -1} // burst after which the connection was found closed
+			estAt := -1                                     // burst after which a session was found Established
 			for bi, burst := range c.Bursts {
 				if c.ArmPoint != "" && bi == c.ArmBurst {
 					w.Arm(c.ArmPoint, c.ArmSkip, c.ArmD)
@@ -203,6 +205,14 @@ func c07Prop(t *testing.T, r *hx.Run, sub string) func(c c07Case) hx.Verdict {
 					}
 				}
 				w.Settle()
+				for _, name := range []string{"out", "in"} {
+					if cn := conns[name]; cn != nil && closedAt[name] < 0 && cn.Snapshot().LocalClosed {
+						closedAt[name] = bi
+					}
+				}
+				if estAt < 0 && w.Sessions(p.Remote) > 0 {
+					estAt = bi
+				}
 				// once a session is Established nothing else of the peer may stay open,
 				// whether or not the remote goes on with the other connection
 				if w.Sessions(p.Remote) > 0 {
@@ -289,6 +299,15 @@ func c07Prop(t *testing.T, r *hx.Run, sub string) func(c c07Case) hx.Verdict {
 			if !lst.LocalClosed {
 				fail("loser-open", "the losing %s connection was left open", loser)
 				return
+			}
+			// a KEEPALIVE that shares its burst with the other connection's OPEN: if the connection
+			// it arrived on was nevertheless closed - after corebgp had answered its OPEN, and at a
+			// time when nothing was Established yet - it lost a collision (nothing else in these
+			// scripts ends a connection), and a collision's loser is told so
+			if !collision && closedAt[loser] >= 0 && (estAt < 0 || closedAt[loser] < estAt) {
+				if lm, _ := wire.ParseStream(lst.Bytes()); len(lm) >= 2 && lm[0].Type == wire.TypeOpen && lm[1].Type == wire.TypeKeepalive {
+					collision = true
+				}
 			}
 			if collision {
 				lm, perr := wire.ParseStream(lst.Bytes())
